@@ -574,14 +574,15 @@ type simWriter struct {
 	short   bool // fail as a short write without own error? (contract: must return non-nil)
 	log     []string
 	failedCall int
+	transient  bool // only one Write fails (EAGAIN-like); later Writes succeed again
 }
 
 func (w *simWriter) Write(p []byte) (int, error) {
 	w.calls++
-	if w.failed {
+	if w.failed && !w.transient {
 		return 0, w.err
 	}
-	if w.failAt >= 0 && len(w.got)+len(p) > w.failAt {
+	if w.failAt >= 0 && !w.failed && len(w.got)+len(p) > w.failAt {
 		k := w.failAt - len(w.got)
 		if k < 0 {
 			k = 0
@@ -712,6 +713,7 @@ func runC17Enc(c *Ctx) Result {
 		} else {
 			w.failAt = t.Draw(simrt.Faults, total)
 		}
+		w.transient = t.Draw(simrt.Faults, 2) == 1
 	}
 	var enc sonic.Encoder
 	if viaConfig {
@@ -755,11 +757,14 @@ func runC17Enc(c *Ctx) Result {
 			if !errors.Is(err, w.err) {
 				return fail("write-error-replaced", fmt.Sprintf("Encode returned %v, the writer failed with %v", err, w.err))
 			}
-			if !bytes.Equal(w.got, want[:w.failAt]) {
+			if w.transient {
+				c.inc("fault_writer_error_transient")
+			}
+			if len(w.got) < w.failAt || !bytes.Equal(w.got[:w.failAt], want[:w.failAt]) {
 				return fail("bytes-before-failure-differ", "bytes accepted before the failure are not Marshal's bytes")
 			}
 			// later Encodes must fail too (the writer keeps failing)
-			if i+1 < len(vals) {
+			if i+1 < len(vals) && !w.transient {
 				if err := enc.Encode(vals[i+1]); err == nil {
 					return fail("write-error-dropped-later", "Encode returned nil although every Write fails")
 				}
